@@ -619,6 +619,8 @@ def _rename_many(m, ren):
     m.order = [g(x) for x in m.order]
     m.rel = set((g(p), g(c), l) for p, c, l in m.rel)
     m.stale_links = set((g(p), g(c), l) for p, c, l in m.stale_links)
+    m.opt2 = set((g(p), g(c), l) for p, c, l in m.opt2)
+    m.manual1 = set((g(p), g(c), l) for p, c, l in m.manual1)
     for k, lst in m.dups.items():
         m.dups[k] = [g(x) for x in lst]
 
